@@ -111,11 +111,13 @@ fn alnum_ident() -> BoxedStrategy<String> {
         2 => gens::pick(gens::text::LABELS).prop_map(String::from),
         1 => "0[0-9]{0,3}[a-z-]",
         1 => Just("-".to_string()),
+        // real-world shapes; all-digit draws would be numeric identifiers, so they get a letter
+        2 => gens::text::realistic_ident().prop_map(|s| if s.bytes().all(|b| b.is_ascii_digit()) { format!("{s}x") } else { s }),
     ]
     .boxed()
 }
 fn build_ident() -> BoxedStrategy<String> {
-    prop_oneof![3 => "[0-9A-Za-z-]{1,8}", 1 => "0[0-9]{1,5}", 1 => num_ident()].boxed()
+    prop_oneof![3 => "[0-9A-Za-z-]{1,8}", 1 => "0[0-9]{1,5}", 1 => num_ident(), 2 => gens::text::realistic_ident()].boxed()
 }
 pub fn valid_semver() -> BoxedStrategy<String> {
     (
